@@ -88,6 +88,11 @@ fn brief_evt(e: &Event<Eff>) -> String {
     truncate(&format!("{e:?}"), 160)
 }
 
+pub fn trace_cap() -> usize {
+    static CAP: std::sync::OnceLock<usize> = std::sync::OnceLock::new();
+    *CAP.get_or_init(|| if std::env::var("QV_TRACE").is_ok() { 200_000 } else { 400 })
+}
+
 #[derive(Default)]
 pub struct Trace {
     pub lines: VecDeque<String>,
@@ -97,7 +102,7 @@ pub struct Trace {
 impl Trace {
     pub fn push(&mut self, s: String) {
         self.total += 1;
-        if self.lines.len() >= 400 {
+        if self.lines.len() >= trace_cap() {
             self.lines.pop_front();
         }
         self.lines.push_back(s);
@@ -125,11 +130,14 @@ pub struct SimCfg {
     pub quanta: Vec<usize>,
     pub schedule: Vec<u8>,
     pub max_moves: usize,
+    /// k > 0: while something else is enabled the environment may only step on every (k+1)-th move
+    /// (widens the windows in which answers and deliveries are still in flight)
+    pub env_slow: u8,
 }
 
 impl SimCfg {
     pub fn baseline() -> SimCfg {
-        SimCfg { workers: 1, quanta: vec![1000], schedule: vec![], max_moves: 200_000 }
+        SimCfg { workers: 1, quanta: vec![1000], schedule: vec![], max_moves: 200_000, env_slow: 0 }
     }
 }
 
@@ -214,12 +222,15 @@ impl Sim {
 
     pub fn enabled_moves(&self) -> Vec<Move> {
         let mut v = Vec::new();
-        if self.env_enabled() {
-            v.push(Move::Env { vis: VIS_ALL });
-        }
         for i in 0..self.workers.len() {
             if self.worker_enabled(i) {
                 v.push(Move::Worker { i, vis: VIS_ALL });
+            }
+        }
+        if self.env_enabled() {
+            let k = self.cfg.env_slow as usize;
+            if k == 0 || v.is_empty() || self.moves % (k + 1) == 0 {
+                v.insert(0, Move::Env { vis: VIS_ALL });
             }
         }
         v
@@ -428,5 +439,5 @@ pub fn run_program(
         &mut after,
     );
     let processes = sim.process_results();
-    ProgRun { end, result, processes, moves: sim.moves, clock: sim.clock, trace: sim.trace_tail(120), classes: sim.classes.clone() }
+    ProgRun { end, result, processes, moves: sim.moves, clock: sim.clock, trace: sim.trace_tail(trace_cap()), classes: sim.classes.clone() }
 }
